@@ -174,7 +174,7 @@ def Case(name, depth, iterative, rng, cid):
            'iterative_forced' if iterative else 'iterative_auto',
            'workflow' if workflow else 'single_statement']
   return {'id': cid, 'prog': prog, 'query': [p['name'] for p in preds],
-          'workflow': workflow,
+          'workflow': workflow, 'stages': True,
           'meta': {'features': feats,
                    'sig': {'family': name, 'depth': depth,
                            'iterative': iterative}}}
